@@ -110,6 +110,15 @@ def oracle(ck, extended):
         (lh, lw), hsz = pyramid_shapes(H, W, J)
         low = gen.float_tensor(ck.nprng, (1, 2, lh, lw)); highs = [gen.float_tensor(ck.nprng, (1, 2, 6, a, b_, 2)) for a, b_ in hsz]
         rt.guard(ck, oracle_inv, ck, b, s, bt, qt, low, highs, '%s/%s' % (b, s))
+    # pyramids of images above every blocking / tiling threshold (gen.scale_shapes_2d) with EVERY level-1 family (the
+    # synthesis low-pass is the longer filter for some families and the shorter one for others)
+    for k, shp in enumerate(gen.scale_shapes_2d(ck.tier)):
+        for i, b in enumerate(OD.BIORTS):
+            if not q or (k + i) % 2 == 0 or shp[2] > 500 or shp[3] > 500:
+                s = OD.QSHIFTS[(k + i) % len(OD.QSHIFTS)]; bt, qt = OD.lib_tables(b, s)
+                (lh, lw), hsz = pyramid_shapes(shp[2], shp[3], 1 + (k + i) % 3)
+                low = gen.float_tensor(ck.nprng, (shp[0], shp[1], lh, lw)); highs = [gen.float_tensor(ck.nprng, (shp[0], shp[1], 6, a, b_, 2)) for a, b_ in hsz]
+                rt.guard(ck, oracle_inv, ck, b, s, bt, qt, low, highs, '%s/%s' % (b, s))
     # basis pyramids: one unit sample (first row, first column and interior; lowpass and each level).  The first-row
     # impulses are the inputs on which the reference's zero shortcut misfires (oracle_dtcwt._linear_colifilt)
     for (H, W, J) in [(8, 8, 2), (16, 12, 3), (5, 7, 2)]:
